@@ -38,7 +38,7 @@ REQUIRED_MONITORS = ["ref-derivative", "mapped-grad", "mapped-div", "mapped-curl
 REQUIRED_REACH = ["complex-step", "central-difference", "negative-det-cell", "per-cell-layout", "subset-tind",
                   "non-affine-cell", "higher-derivative-chain", "unsorted-triangle-cells",
                   "global-nodal-on-general-quadrilateral", "points-updated-in-place",
-                  "tind-with-repeated-cell"]
+                  "tind-with-repeated-cell", "parametrised-degree>=7", "every-local-function-of-large-elements"]
 
 FD = ((1, 4 / 5), (2, -1 / 5), (3, 4 / 105), (4, -1 / 280))
 
@@ -88,14 +88,34 @@ def bfun_names(elem):
     return out
 
 
+def high_degree_records():
+    """Parametrised elements beyond the degrees of the registry (reference-level checks only: cheap)."""
+    import dataclasses
+    import skfem.element as E
+    out = []
+    for p_ in (7, 8, 10, 12):
+        out.append(dataclasses.replace(EL.by_name("ElementLinePp(6)"), name=f"ElementLinePp({p_})", make=(lambda p_=p_: E.ElementLinePp(p_)),
+                                       complete=p_))
+    for p_ in (6, 7, 8):
+        out.append(dataclasses.replace(EL.by_name("ElementQuadP(5)"), name=f"ElementQuadP({p_})", make=(lambda p_=p_: E.ElementQuadP(p_)),
+                                       complete=p_, tensor_complete=p_))
+    return out
+
+
 # ------------------------------------------------------------ reference level
 def ref_derivatives(ctx, k):
     # skeleton elements are facet indicators (discontinuous inside the reference cell): no derivative claim
-    recs = [r for r in EL.registry() if r.family in ("h1", "hdiv", "hcurl") and not r.skeleton]
+    recs = [r for r in EL.registry() if r.family in ("h1", "hdiv", "hcurl") and not r.skeleton] + high_degree_records()
     rec = recs[k % len(recs)]
     rng = ctx.rng()
     elem = rec.make()
     kind = rec.kind
+    if rec.name.startswith(("ElementLinePp(", "ElementQuadP(")):
+        pdeg = int(rec.name.split("(")[1][:-1])
+        ctx.check("ref-derivative", nbfun(elem) == (pdeg + 1) ** GEO.REFDIM[kind], mech=f"number-of-functions:{rec.name.split('(')[0]}",
+                  elem=rec.name, got=nbfun(elem))
+        if pdeg >= 7:
+            ctx.reached("parametrised-degree>=7")
     d = GEO.REFDIM[kind]
     X = GEO.random_ref_points(rng, kind, 7)
     if k >= len(recs):  # second round: points on the closed cell incl. vertices
@@ -118,7 +138,10 @@ def ref_derivatives(ctx, k):
                 raise TypeError("lbasis discards the imaginary part")
         except Exception:
             method = "central-difference"
-            J = np.stack([fdiff(lambda Y: rec.make().lbasis(Y, i)[0], X, m, 0.02) for m in range(d)])
+            # (the 8th-order difference is exact up to degree 8; beyond, a smaller step keeps its truncation error,
+            # f^(9) h^8, below the tolerance)
+            hs = 0.02 if (rec.complete or 0) <= 6 else 0.004
+            J = np.stack([fdiff(lambda Y: rec.make().lbasis(Y, i)[0], X, m, hs) for m in range(d)])
         ctx.reached(method)
         if rec.family == "h1":
             ref = J  # (d, npts)
@@ -258,6 +281,8 @@ def mapped_derivatives(ctx, k):
     for kind in G.KINDS:
         allrecs += [r for r in EL.all_for_kind(kind) if not r.skeleton]
     rec = allrecs[k % len(allrecs)]
+    if not ctx.thorough and k >= len(allrecs) and rec.family not in ("hdiv", "hcurl", "global", "matrix"):
+        raise Skip("second-quick-round-is-for-hdiv-hcurl-global-records")
     rng = ctx.rng()
     mc, mesh, geom = pick_mesh(ctx, rng, rec, int(rng.integers(0, 6)))
     kind = rec.kind
@@ -301,7 +326,14 @@ def mapped_derivatives(ctx, k):
     hstep = 0.02
     idxs = list(range(N))
     if N > 14:
-        idxs = sorted(rng.choice(N, size=14, replace=False).tolist())
+        # a window that rotates with the round, so that every local index is visited in turn (a random sample leaves a
+        # single wrong high-index function of a 64-function element unseen for many rounds)
+        rnd_ = k // len(allrecs)
+        idxs = sorted({(rnd_ * 14 + m_) % N for m_ in range(14)})
+        # plus one cheap complete pass per case: every local function, first derivative chain only at one point of one cell
+        full_pass = bool(ctx.thorough or k % 3 == 0)
+    else:
+        full_pass = False
 
     fresh_each_call = rec.name.startswith(("ElementLinePp", "ElementQuadP"))  # C15's table staleness is not C09's
 
@@ -367,6 +399,29 @@ def mapped_derivatives(ctx, k):
                 if np.abs(ref).max() > 0:
                     ctx.nontrivial(rec.name, "mapped", name, geom, percell)
                 prev = name
+    if full_pass:
+        X1 = GEO.random_ref_points(rng, kind, 1)
+        c1 = cells[:1]
+        DF1 = GEO.jacobian(kind, p, t, X1, c1)
+        inv1 = GEO.inv(DF1)
+        ut1 = None if use_tind is None and len(cells) == nt else c1
+        if use_tind is None:
+            c1 = np.arange(nt)[:1]
+            ut1 = c1
+        for i in range(N):
+            if i in idxs:
+                continue
+            e_ = rec.make()
+            f0 = e_.gbasis(mapping, X1, i, ut1)
+            for comp, f in enumerate(f0):
+                if f.grad is None or np.array(f).ndim != 2:
+                    continue
+                dX1 = np.stack([fdiff(lambda Y: np.array((rec.make() if fresh_each_call else e_).gbasis(mapping, Y, i, ut1)[comp]), X1, m_, hstep)
+                                for m_ in range(d)])
+                G1 = np.einsum("mkcq,mcq->kcq", inv1, dX1)
+                ctx.close("mapped-grad", f.grad, G1, rtol=rtol, scale=max(float(np.abs(G1).max()), float(np.abs(f.grad).max()), 1e-9),
+                          mech=f"mapped-grad:{rec.name.split('(')[0]}", elem=rec.name, i=i, comp=comp, geom=geom, full_pass=True)
+        ctx.reached("every-local-function-of-large-elements")
     # the two point layouts give the same fields
     if not percell and len(idxs) and rec.name != "ElementTriN3":
         i = idxs[int(rng.integers(len(idxs)))]
@@ -577,7 +632,7 @@ def global_dofs(ctx, k):
 
 
 def _n_ref(ctx):
-    return 2 * len([r for r in EL.registry() if r.family in ("h1", "hdiv", "hcurl") and not r.skeleton])
+    return 2 * (len([r for r in EL.registry() if r.family in ("h1", "hdiv", "hcurl") and not r.skeleton]) + len(high_degree_records()))
 
 
 def _n_nodal(ctx):
